@@ -79,7 +79,7 @@ func (r sbReq) desc() string {
 	if r.HasDepth {
 		d = strconv.Itoa(r.Depth)
 	}
-	return fmt.Sprintf("root=%q moves=[%s] tt=%dKB warm=%d depth=%s nodes=%d softnodes=%d stop=%d/%d",
+	return fmt.Sprintf("root=%q moves=[%s] tt=%dKB warm=%d depth=%s nodes=%d softnodes=%d stop=%d/%d (stop kind +16: with a far time limit; warm<0: previous search on fixed root number -warm)",
 		r.Root.Fen, strings.Join(ms, " "), r.TTKB, r.Warm, d, r.Nodes, r.SoftNodes, r.StopKind, r.StopArg)
 }
 
@@ -455,10 +455,16 @@ func sbRun(s *search.Search, b *board.Board, r sbReq) sbResult {
 	if r.SoftNodes >= 0 {
 		opts = append(opts, search.WithSoftNodes(r.SoftNodes))
 	}
+	// StopKind = kind + 16*timed: with `timed` a time limit is among the limits (as in every game played on a
+	// clock), far enough away never to expire (the property quantifies over "depth, node budgets, time, stop
+	// signal"; wall-clock expiry itself is not reproducible and stays outside the streams)
+	if r.StopKind&16 != 0 {
+		opts = append(opts, search.WithSoftTime(int64(1)<<40))
+	}
 	var stop chan struct{}
 	done := make(chan struct{})
 	var wd atomic.Bool
-	switch r.StopKind {
+	switch r.StopKind & 15 {
 	case 1:
 		stop = make(chan struct{})
 		close(stop)
@@ -517,6 +523,21 @@ func sbEngine(ttKB, warm int, b *board.Board) *search.Search {
 		ttKB = 65536
 	}
 	s := search.New(ttKB * 1024)
+	if warm < 0 {
+		// a PREVIOUS search on ANOTHER position on the same instance (the engine keeps its table, histories and
+		// its principal-variation buffer between searches): root number -warm, 2000 soft nodes, completed or
+		// (odd numbers) cut by a hard budget
+		rs := sbRoots()
+		ob := sbBoard(rs[(-warm)%len(rs)])
+		if ob != nil {
+			cnt := search.Counters{}
+			hard := 50000
+			if (-warm)%2 == 1 {
+				hard = 300 + (-warm)%700
+			}
+			s.Go(ob, search.WithCounters(&cnt), search.WithSoftNodes(2000), search.WithNodes(hard), search.WithOutput(nil))
+		}
+	}
 	if warm > 0 {
 		cnt := search.Counters{}
 		s.Go(b, search.WithCounters(&cnt), search.WithSoftNodes(warm), search.WithNodes(4*warm+1000), search.WithOutput(nil))
@@ -587,6 +608,29 @@ func sbRequests(rng *hx.Rng, n int, tier string, emit func(r sbReq, tags []strin
 			r := base(root)
 			r.TTKB, r.StopKind = tt, 1
 			out(r, "stop-before-start")
+			// the same after a previous search on another position (seeded change C06-H returned the stale
+			// first move of the previous principal variation)
+			for _, w := range []int{-1, -2, -7 - len(root.Name)} {
+				r := base(root)
+				r.TTKB, r.StopKind, r.Warm = tt, 1, w
+				out(r, "stop-before-start-after-other-root")
+				r.StopKind, r.Nodes = 0, []int{0, 1, 2}[(-w)%3]
+				out(r, "abort-point-after-other-root")
+			}
+			// a (far) time limit among the limits (seeded change C06-G took a shortcut for timed searches)
+			for _, d := range []int{1, 3, 64} {
+				r := base(root)
+				r.TTKB, r.HasDepth, r.Depth, r.StopKind = tt, true, d, 16
+				if !final {
+					r.Nodes = 700
+				}
+				out(r, "timed+depth-limit")
+			}
+			{
+				r := base(root)
+				r.TTKB, r.SoftNodes, r.Nodes, r.StopKind = tt, 50, 3000, 16
+				out(r, "timed+soft-nodes")
+			}
 			for _, sd := range []int{0, 1, 2, 3} {
 				r := base(root)
 				r.TTKB, r.StopKind, r.StopArg, r.Nodes = tt, 2, sd, 20000
@@ -657,6 +701,13 @@ func sbRequests(rng *hx.Rng, n int, tier string, emit func(r sbReq, tags []strin
 		}
 		if r.Warm > 0 {
 			tags = append(tags, "warmed")
+		} else if rng.Chance(0.2) {
+			r.Warm = -1 - rng.Intn(40)
+			tags = append(tags, "after-other-root")
+		}
+		if rng.Chance(0.25) {
+			r.StopKind += 16
+			tags = append(tags, "timed")
 		}
 		out(r, tags...)
 	}
